@@ -9,6 +9,7 @@ import Revm.Proofs.EvmLinkGasInv4
 import Revm.Proofs.EvmLinkSame
 import Revm.Proofs.EvmLinkEther9
 import Revm.Proofs.EvmLinkStatic6
+import Revm.Proofs.EvmLinkTerm
 /-! C01Link — the whole-transaction model `Revm.Model.Evm.transact` (C01) SATISFIES the component properties.
 
 `Evm.transact` (EvmTx / EvmFrame / EvmLoop / EvmHost) was written independently of the component models that carry the
@@ -21,7 +22,7 @@ Translations (`Proofs/EvmLink*.lean`): `tvCfg / tvBlock / tvTx / senderOf` (the 
 reads them), `gasEnv / frameRes / toIR` (the environment and the first frame's result as C09 reads them).
 
 Sections: 1 validation (C02) · 2 gas and fees (C09) · 3 frame depth (C07) · 4 the `Host` as a journal history, cold /
-warm (C34) · 5 static mode (C10) · 6 ether conservation (C08).
+warm (C34) · 5 static mode (C10) · 6 ether conservation (C08) · 7 termination.
 
 What is hypothesised and not proved here: `loadSender … = .ok …` (the journal can load the sender: no `unwrap` panic in
 the journal model, the code store knows the sender's code hash); for C34 the history `lockRun … = some l` leading to the
@@ -812,5 +813,47 @@ example : ledgerCheck 10 sampleWorld sampleEnv 17 [0xaa, 0xbb, 0] 147000 = true 
 example : (match Evm.transact 10 sampleWorld sampleEnv 17 with
     | .ok (_, w') => dedup w'.addrs
     | _ => []) = [0, 0xbb, 0xaa] := by decide +kernel
+
+/-! ## 7. termination
+
+The fuel of `Evm.runLoop` is an artefact of the model; here it is bounded by the gas. The generic reduction is C01's
+(`Proofs/EvmTerm.lean`, `runLoop_fuel`: an iteration that lowers a measure, or stops with an error other than "out of
+fuel"). The measure is `2 · Σ gas remaining on the meters of the stack + number of frames`. It falls with every
+iteration, in ANY state and with no invariant, because `record_cost` either fails or lowers `remaining` by exactly the
+cost, and — the strict version of the gas sweep of section 2 (`Proofs/EvmLinkStrict*.lean`) — every instruction that
+lets its frame continue records a cost of at least 1 (static costs, and the dynamic ones: `Proofs/EvmLinkCostPos.lean`),
+every action pays the child's gas limit and at least 1 more, and a returning frame hands back at most what it has
+left. Nothing but the loop itself answers "out of fuel" (`Proofs/EvmLinkNoFuel.lean`). -/
+
+/-- LINK (C25 `gas_decreases`, for every frame of the whole EVM and without the invariant of C25): one interpreter step
+in ANY state — an instruction after which the frame continues leaves at least one unit of gas less on the meter; an
+action (CALL family, CREATE, EOFCREATE, EXT*CALL) has paid the child's gas limit and one more -/
+theorem evm_step_gas_strict (s : Interp.IState) : SOutcome s (Interp.step s) := step_strict s
+
+/-- LINK: every iteration of `run_the_loop` lowers `2 · Σ gas remaining + number of frames` -/
+theorem evm_iterate_measure (cfg : Cfg) (stack : List JFrame) (w : World) (n : Next Journal.Checkpoint)
+    (h : iterate journalOps cfg stack w = .ok n) : mu n < mu (.run stack w) := iterate_mu h
+
+/-- COROLLARY: **`run_the_loop` terminates** — for every stack of frames in any state, with more fuel than
+`2 · Σ gas remaining + number of frames` the loop does not run out of fuel -/
+theorem evm_runLoop_terminates (cfg : Cfg) (fuel : Nat) (stack : List JFrame) (w : World)
+    (h : 2 * gsum stack + stack.length < fuel) : runLoop journalOps cfg fuel stack w ≠ .error .outOfFuel :=
+  runLoop_terminates cfg fuel stack w h
+
+/-- COROLLARY (the termination part of C01 `FullStatement_transact_total`, with the fuel bound stated there):
+**`Evm.transact` terminates.** For EVERY world, environment, fork — no hypothesis, not even `gas_limit < 2^64` —
+`2 · gas_limit + 2` units of fuel suffice: the answer is never "out of fuel". (It is a result, or one of the model-level
+errors — panic, fatal database error, missing oracle answer — none of which depends on the fuel; that those do not
+occur on a well-formed world is the other part of `FullStatement_transact_total` and is not claimed here.) -/
+theorem transact_terminates :
+    ∃ bound : Nat → Nat, (∀ g, bound g = 2 * g + 2) ∧
+      ∀ (fuel : Nat) (w : World) (e : Evm.Env) (spec : Nat), bound e.tx.gasLimit ≤ fuel →
+        Evm.transact fuel w e spec ≠ .error .outOfFuel :=
+  ⟨fun g => 2 * g + 2, fun _ => rfl, fun fuel w e spec hf => transact_terminates' fuel w e spec hf⟩
+
+/-- the fuel bound is reached by no run of the sample transaction, and the strict step on the sample frame -/
+example : 2 * sampleEnv.tx.gasLimit + 2 = 42002 := rfl
+example : ∃ r w', Evm.transact 42002 sampleWorld sampleEnv 17 = .ok (.executed r, w') :=
+  exists_of_isExecuted (by decide +kernel)
 
 end Revm.Props.C01Link
